@@ -84,6 +84,12 @@ void *ut_realloc(void *ptr, size_t size)
 #define XC_ROOM(s) (__CPROVER_OBJECT_SIZE(s) - (size_t)__CPROVER_POINTER_OFFSET(s))
 #define XC_OFF(s) ((size_t)__CPROVER_POINTER_OFFSET(s))
 #define XC_BASE(s) ((const char *)(s) - __CPROVER_POINTER_OFFSET(s))
+/* xv_g_str (ghost, assigned only by an is_fresh of a contract's requires clause): the job's own pointer to THE string under
+ * proof.  A pointer into that string which the code under proof carries through a loop contract is, for the symbolic
+ * execution, a pointer to "any object" after the loop-head havoc: every read through it is a case split over all objects
+ * of the program (1.6 M variables for slist_split).  The models therefore read through xv_g_str + offset when the argument
+ * points into the same object (same bytes, same checks). */
+#define XC_REBASE(s) (xv_g_str != NULL && __CPROVER_same_object((s), xv_g_str))
 #ifndef XV_STR_EXACT
 /* memcpy: the over-approximation of env/base.h (same text): exact for n <= 8, else destination ARBITRARY except at
  * offsets 0..7 and at the ghost offset xv_mc; both regions must be accessible and must not overlap */
@@ -123,6 +129,12 @@ size_t strlen(const char *s)
         return (size_t)xv_asn1_z;
     }
     size_t room = XC_ROOM(s);
+    if (XC_REBASE(s)) {
+        const char *b = xv_g_str; size_t off = XC_OFF(s), end = __CPROVER_OBJECT_SIZE(xv_g_str) - 1;
+        __CPROVER_assert(b[end] == 0, "strlen model: NUL at the end of the string's object");
+        __CPROVER_assert(!(xv_mc >= off && xv_mc < end) || b[xv_mc] != 0, "strlen model: no NUL before the end (arbitrary position)");
+        return end - off;
+    }
     __CPROVER_assert(s[room - 1] == 0, "strlen model: NUL at the end of the string's object");
     __CPROVER_assert(!(xv_mc >= XC_OFF(s) && xv_mc < XC_OFF(s) + room - 1) || XC_BASE(s)[xv_mc] != 0, "strlen model: no NUL before the end (arbitrary position)");
     return room - 1;
@@ -133,9 +145,19 @@ size_t strlen(const char *s)
 char *strchrnul(const char *s, int c)
 {
     __CPROVER_assert(__CPROVER_r_ok(s, 1), "strchrnul: argument readable");
+    size_t n = nondet_size_t();
+    if (XC_REBASE(s)) {
+        /* same model, reading through the job's own pointer to the string (see XC_REBASE) */
+        const char *b = xv_g_str; size_t off = XC_OFF(s), end = __CPROVER_OBJECT_SIZE(xv_g_str) - 1;
+        __CPROVER_assert(b[end] == 0, "strchrnul model: NUL at the end of the string's object");
+        __CPROVER_assume(n <= end - off);
+        __CPROVER_assume(n == end - off || b[off + n] == (char)c);
+        __CPROVER_assume(!(xv_mc >= off && xv_mc < off + n) || (b[xv_mc] != (char)c && b[xv_mc] != 0));
+        xv_scn_len = n;
+        return (char *)b + (off + n);
+    }
     size_t room = XC_ROOM(s);
     __CPROVER_assert(s[room - 1] == 0, "strchrnul model: NUL at the end of the string's object");
-    size_t n = nondet_size_t();
     __CPROVER_assume(n <= room - 1);
     __CPROVER_assume(n == room - 1 || s[n] == (char)c);
     __CPROVER_assume(!(xv_mc >= XC_OFF(s) && xv_mc < XC_OFF(s) + n) || (XC_BASE(s)[xv_mc] != (char)c && XC_BASE(s)[xv_mc] != 0));
